@@ -336,6 +336,14 @@ def run(ctx, col: Collector):
                 if isinstance(n, ast.Call) and isinstance(n.func, ast.Attribute) and n.func.attr == 'open' and isinstance(n.func.value, ast.Name) \
                         and n.func.value.id in ('io', 'codecs'):
                     n_open += 1
+                    is_stdlib = any(isinstance(st, ast.Import) and any(a.name == 'codecs' and a.asname in (None, 'codecs') for a in st.names)
+                                    for st in ast.walk(ctx.idx.modules[fi.module].tree)) if fi.module in ctx.idx.modules else False
+                    if n.func.value.id == 'codecs' and is_stdlib:
+                        # codecs.open: "underlying encoded files are always opened in binary mode; no automatic conversion of '\n' is done"
+                        col.bad('C12-utf8', f'{fi.qualname}:{norm(n)[:50]}', f'{fi.qualname} opens the source with codecs.open (`{norm(n)[:50]}`): such a file is read in '
+                                f'binary mode and decoded without universal-newline translation, so a file with CRLF line ends gives a different text by path than the same '
+                                f'file passed as an ordinary open text stream', node=n, file=fi.file)
+                        continue
                     col.unk('C12-utf8', f'{fi.qualname}:{norm(n)[:50]}', f'{fi.qualname} opens the source with {norm(n.func)}: encoding and newline handling of that call are not '
                             f'modelled', node=n, file=fi.file)
         col.floor('C12-utf8', 'open() calls on routes', n_open, 1)
